@@ -28,7 +28,7 @@ RULE = ('Domain 1 (timeouts, virtual time): one phase under test with duration d
         'ever observed inside the body, never in the handlers, the killer or main; a kill that completed while the body had >=2 '
         'steps left => the body does not finish.  Non-trivial = |d - t| <= eps or d within the poll window, or a kill that lands '
         'within two yield points of a state change of the target; distinct by canonical case.  The grid also contains bodies that '
-        'return REPEAT twice and then a value, each invocation taking 0.3-0.9 of timeout_s (the timeout is per invocation).')
+        'return REPEAT twice and then a value, each invocation taking 0.3-0.9 of timeout_s (the timeout is per invocation), and the grid under stop_on_first_failure (test option and configuration key): a timeout is reported as TIMEOUT under it too.')
 ASSUMPTIONS = ['Virtual time; PyThreadState_SetAsyncExc is modelled as "pending exception raised at the target\'s next yield point".']
 
 EPS = 0.01
@@ -46,7 +46,8 @@ def _spawn(fn, name):
 def timeout_case(case):
   """case = {'t': float|None, 'd': float|'inf', 'kind': str, 'pos': str, 'rot': bool}"""
   def fn(s):
-    htf = ohtf.reset_case(cancel_timeout_s=0.5, plug_teardown_timeout_s=0.5)
+    extra_conf = {'stop_on_first_failure': True} if case.get('sof') == 'conf' else {}
+    htf = ohtf.reset_case(cancel_timeout_s=0.5, plug_teardown_timeout_s=0.5, **extra_conf)
     vmode.quiet_logging()
     from openhtf.util import threads  # pylint: disable=g-import-not-at-top
     log = []
@@ -151,6 +152,9 @@ def timeout_case(case):
     else:
       nodes = [htf.PhaseGroup(main=[other], teardown=[put, td])]
     test = htf.Test(*nodes)
+    if case.get('sof') == 'opt':
+      # an unrelated test option: a timeout is a timeout under it too
+      test.configure(stop_on_first_failure=True)
     got = []
     test.add_output_callbacks(got.append)
     from openhtf.core import phase_executor  # pylint: disable=g-import-not-at-top
@@ -192,11 +196,13 @@ def check_timeout(case):
         return r, s
   t = case['t'] if case['t'] is not None else float(case.get('flag') or 180.0)
   d = float('inf') if case['d'] == 'inf' else case['d']
-  tag = 'pos:%s/kind:%s%s' % (case['pos'], case['kind'], '/--phase_default_timeout_s=%s' % case['flag'] if case.get('flag') is not None else '')
+  tag = 'pos:%s/kind:%s%s%s' % (case['pos'], case['kind'], '/--phase_default_timeout_s=%s' % case['flag'] if case.get('flag') is not None else '',
+                             '/stop_on_first_failure(%s)' % case['sof'] if case.get('sof') else '')
   near = abs(d - t) <= 2 * EPS or (t < d <= t + POLL + 2 * EPS)
   r.nontrivial = near or bool(s.effective_preemptions)
   r.classes = ['timeout', 'pos:' + case['pos'], 'kind:' + case['kind'], 't:%s' % case['t'],
-               'zone:' + ('before' if d < t else 'grace' if d <= t + POLL else 'after'), 'preemptions:%d' % min(len(s.effective_preemptions), 3)]
+               'zone:' + ('before' if d < t else 'grace' if d <= t + POLL else 'after'), 'preemptions:%d' % min(len(s.effective_preemptions), 3)] + (
+                   ['stop_on_first_failure:' + case['sof']] if case.get('sof') else [])
   if s.failure is not None:
     if s.failure[0] in ('deadlock', 'steplimit'):
       r.bad('C12/timeout/hang', '%s t=%s d=%s: %s' % (tag, case['t'], case['d'], s.failure[1][:500]))
@@ -286,6 +292,12 @@ def timeout_grid():
     for frac in (0.3, 0.4, 0.6, 0.9):
       for pos in ('alone', 'main', 'setup', 'teardown'):
         yield {'t': t, 'd': round(tt * frac, 4), 'kind': 'repeats', 'pos': pos, 'rot': False}
+  for sof in ('opt', 'conf'):
+    for t in (0.5, 3.0):
+      for d in (0.0, t + EPS, 'inf'):
+        for kind in ('returns', 'killable', 'unkillable', 'late'):
+          for pos in ('alone', 'main', 'setup', 'teardown'):
+            yield {'t': t, 'd': d if d == 'inf' else round(d, 4), 'kind': kind, 'pos': pos, 'rot': False, 'sof': sof}
   for flag in (5, 2.5, 400):
     for d in (0.0, flag - EPS, flag + EPS, 'inf'):
       for kind in ('returns', 'killable'):
